@@ -49,6 +49,8 @@ PREFIXES = [
     ("none", ""), ("note", "- "), ("open", "o "), ("prio", "o P1 "), ("done-dated", "x 240601 "),
     ("note+zid", f"- {PRIMARY} "), ("prio+zid", f"o P2 {PRIMARY} "), ("stamped+zid", f"o P3 240502 {PRIMARY} "),
     ("comment", "# "), ("bullet", "  * "), ("bullet2", "    - "), ("done+zid", f"x {PRIMARY} "),
+    # two blanks inside the prefix: the primary ZID is still the primary ZID
+    ("spaced+zid", f"-  {PRIMARY} "), ("spaced-prio+zid", f"o P2  {PRIMARY} "),
 ]
 WRAPPERS = ["bare", "trail", "paren", "quote", "iprop"]
 
